@@ -894,6 +894,7 @@ def gen_C10(g, tier):
                 sl_ = offset_slice(g, c, g.text(c, n), r.randrange(0, per + 1))
                 lines.append(f"{c} kmer minmax {K} usize {sl_}")
                 lines.append(f"{c} kmer minafter {K} usize {r.choice([0, 1, 2, 3, n - K, n - K + 1, n])} {sl_}")
+                lines.append(f"{c} kmer minnth {K} usize {r.choice([0, 1, 2, 3, n - K, n - K + 1, n])} {sl_}")
     # codecs without Ord must be refused by both sides
     lines.append("iupac cmp p str 41 p str 43")
     lines.append("amino kmer cmp 2 usize 1 2")
